@@ -8,7 +8,7 @@ from typing import Dict, List, Optional, Set, Tuple
 from ..core import astutil as A
 from ..core.index import AnalysisError, FuncInfo
 from ..selftest import M
-from .common import may_conds, conjuncts, is_early_exit_guard, T, attr_stores, calls_named, conds, every_origin, facts, need, subscript_stores, where
+from .common import atoms_of, ext_name, may_conds, conjuncts, is_early_exit_guard, T, attr_stores, calls_named, conds, every_origin, facts, need, subscript_stores, where
 
 INS = "ufo2ft.instantiator"
 I = f"{INS}.Instantiator"
@@ -26,6 +26,8 @@ def run(prog, chk):
         "rounding: otRound is installed as fontMath's integer rounding; .round() only under round_geometry, for kerning, info and glyphs (R19.7)",
         "the instance location is the default location overridden by the instance's, normalised once and used for kerning, info and every glyph (R19.8)",
     ]
+    chk.decided += ["designspace rules are applied exactly where the designspace library says they fire: process_rules_swaps asks designspaceLib.evaluateRule(rule, location) for every rule, in rule "
+                    "order, and records every substitution whose glyph exists - no home-made condition test (a bound of 0 is a bound) (R19.9)"]
     chk.not_decided += ["interpolation arithmetic (fontTools.varLib / fontMath)", "rounded values"]
     chk.guard(r191, prog, chk)
     chk.guard(r192, prog, chk)
@@ -34,6 +36,7 @@ def run(prog, chk):
     chk.guard(r196, prog, chk)
     chk.guard(r197, prog, chk)
     chk.guard(r198, prog, chk)
+    chk.guard(r199, prog, chk)
 
 
 # ----------------------------------------------------------------------------- R19.1
@@ -532,7 +535,38 @@ def r198(prog, chk):
     chk.minimum("R19.8", 7)
 
 
+# ----------------------------------------------------------------------------- R19.9
+def r199(prog, chk):
+    ix = prog.ix
+    f = ix.get_func("ufo2ft.instantiator:process_rules_swaps")
+    rules_p, loc_p, names_p = f.params()[:3]
+    apps = [c for c in calls_named(f, "append") if c.args and isinstance(c.args[0], ast.Tuple) and len(c.args[0].elts) == 2]
+    need(len(apps) == 1, f"cannot interpret {f.short}: swap recording")
+    ap = apps[0]
+    loops = [a for a in ix.ancestors(ap) if isinstance(a, ast.For)]  # innermost first
+    ok = len(loops) == 2 and T(loops[1].iter) == rules_p and isinstance(loops[1].target, ast.Name) and T(loops[0].iter) == f"{loops[1].target.id}.subs"
+    why = "loops"
+    if ok:
+        rv = loops[1].target.id
+        gs = [g for g in conds(prog, f, ap) if g.polarity in (True, False) and any(a is loops[1] for a in ix.ancestors(g.loc))]
+        ev = [g for g in gs if isinstance(g.test, ast.Call) and ext_name(prog, f, g.test.func).endswith("designspaceLib.evaluateRule") and g.polarity is True
+              and [T(a) for a in g.test.args] == [rv, loc_p] and all(d.kind == "param" for d in prog.reaching(f, loc_p, g.test.args[1]))]
+        member = [g for g in gs if g not in ev]
+        old, new = [T(x) for x in loops[0].target.elts] if isinstance(loops[0].target, ast.Tuple) and len(loops[0].target.elts) == 2 else ("?", "?")
+        okm = len(member) == 1 and any(o == "in" and l == old for o, l, r in atoms_of(member[0].test, member[0].polarity))
+        ok = len(ev) == 1 and okm and [T(x) for x in ap.args[0].elts] == [old, new] \
+            and not any(isinstance(n, (ast.Break, ast.Return)) for n in ast.walk(loops[1]))
+        why = "rule test" if len(ev) != 1 else "membership / recorded pair"
+    chk.ob("R19.9", f"{f.short}|a rule's substitutions are recorded iff designspaceLib.evaluateRule(rule, location) holds, in rule order", ok, where(f, ap), detail="for rule in rules: if evaluateRule(rule, location): for old, new in rule.subs: if old in glyphNames: swaps.append((old, new))",
+           message=f"{f.short}: whether a designspace rule fires is no longer decided by designspaceLib.evaluateRule(rule, location) alone ({why}): rules fire at locations where they "
+                   f"must not (or do not fire where they must) and the instance carries the partner glyph's outline")
+    chk.minimum("R19.9", 1)
+
+
 MUTANTS = [
+    M("rule conditions evaluated by hand, a bound of 0 read as 'no bound' (seeded C19l)", "ufo2ft/instantiator.py", "process_rules_swaps",
+      "designspaceLib.evaluateRule(rule, location)",
+      "all(((c.get('minimum') or float('-inf')) <= location.get(c['name'], 0) <= (c.get('maximum') or float('inf')) for cs in rule.conditionSets for c in cs))", rule="R19.9"),
     M("instance anchors filtered down to the default glyph's anchor names (seeded C19j)", "ufo2ft/instantiator.py", "Instantiator.generate_glyph_instance",
       "output_glyph.unicodes = list(self.default_source_glyphs[glyph_name].unicodes)",
       "output_glyph.unicodes = list(self.default_source_glyphs[glyph_name].unicodes)\nnames = {a.name for a in self.default_source_glyphs[glyph_name].anchors}\noutput_glyph.anchors = [dict(a) for a in output_glyph.anchors if a.name in names]", rule="R19.4"),
